@@ -96,6 +96,12 @@ class TreeGen:
         self.features.add("fwd:" + kind)
         toks = [100, 0, ARG, "CALLDATACOPY"]
         rsz = r.choice([32, 32, 0, 64])
+        prefill = r.random() < 0.5
+        if prefill:
+            # only min(retSize, len(returndata)) bytes of the output area are written: the rest keeps what the caller had there
+            self.features.add("prefilled-output-area")
+            toks += [("push", 0x1111111111111111111111111111111111111111111111111111111111111111, 32), RET, "MSTORE",
+                     ("push", 0x2222222222222222222222222222222222222222222222222222222222222222, 32), RET + 32, "MSTORE"]
         toks += [rsz, RET, 100, ARG]
         if kind in ("CALL", "CALLCODE"):
             toks += self.small_value()
@@ -105,7 +111,9 @@ class TreeGen:
         toks += ["DUP1", 0x40, "MSTORE", 6, "SSTORE"] if r.random() < 0.7 else [0x40, "MSTORE"]
         if r.random() < 0.6:
             toks += ["RETURNDATASIZE", 9, "SSTORE"]
-        if r.random() < 0.6:
+        if prefill:
+            toks += [RET, "MLOAD", RET + 32, "MLOAD", 3, "MUL", "XOR", 7, "SSTORE"]
+        elif r.random() < 0.6:
             toks += [RET, "MLOAD", 7, "SSTORE"]
         if r.random() < 0.5:
             self.features.add("post-call-write")
@@ -138,6 +146,9 @@ class TreeGen:
         if k == "ret":
             return [marker] + self.cdw() + ["ADD", 0, "MSTORE", 0x40, "MLOAD", 0x20, "MSTORE", self.r.choice([32, 64]), 0, "RETURN"]
         if k == "revert":
+            if self.r.random() < 0.4:
+                self.features.add("end:revert-4-bytes")
+                return [marker, 0xEE, "ADD", 0, "MSTORE", 4, 28, "REVERT"]  # short revert data (a 4-byte selector)
             return [marker, 0xEE, "ADD", 0, "MSTORE", 32, 0, "REVERT"]
         if k == "invalid":
             return ["INVALID"]
